@@ -5,12 +5,21 @@
 
    Strings are BYTES (Go compares strings with ==, i.e. byte-wise).  Packet and
    StanzaType lower-case their arguments with strings.ToLower; the model lower-cases
-   ASCII letters only, so those arguments are restricted to ASCII (the harness
-   generates ASCII arguments only).  IQNamespaces keeps its arguments verbatim:
+   ASCII letters only, so the model is faithful for ASCII arguments ([ascii], the stated
+   domain of the matcher theorems).  Go's simple case mapping also sends some non-ASCII
+   letters to ASCII ones (U+0130 to i, U+212A KELVIN SIGN to k, U+017F LONG S to s), so
+   Packet("\u0130Q") accepts IQs: for a non-ASCII argument the harness hands the model the
+   string as strings.ToLower returns it (the lower-casing is then Go's, the matching the
+   model's) and the direct oracle judges it by strings.ToLower.  IQNamespaces keeps its arguments verbatim:
    namespace names are case-sensitive.  Packet fields are arbitrary bytes: they are
    only ever compared, never transformed.
 
-   Out of this model: stanza.SMAnswer packets (C10), the concurrency of the
+   Every route has a handler: a route registered without one (NewRoute() or Packet(..)
+   alone) is a nil-interface call when it is the first match - a configuration error outside
+   the property's "the handler of the first registered route".
+   stanza.SMAnswer is a POther like any other non-stanza packet for every Sender but a
+   *Client, for which route() first retransmits unacknowledged stanzas (C10, not through
+   Sender.Send) and then routes it the same way.  Out of this model: the concurrency of the
    IQ-result table (C07: here the table is a plain list of pending ids). *)
 From Coq Require Import List ZArith NArith Bool.
 From XV Require Import Lib.Sx.
@@ -21,6 +30,8 @@ Open Scope N_scope.
 Definition lower_byte (c : N) : N :=
   if (65 <=? c) && (c <=? 90) then c + 32 else c.
 Definition lower (s : str) : str := map lower_byte s.
+(* the domain on which [lower] is strings.ToLower *)
+Definition ascii (s : str) : Prop := Forall (fun c => c < 128) s.
 
 Definition s_message : str := [109;101;115;115;97;103;101].
 Definition s_iq : str := [105;113].
@@ -44,7 +55,7 @@ Inductive pkt :=
     (* *stanza.IQ; ns = Some (Payload.Namespace()) when Payload is non-nil, None when
        Payload is nil; any = Some (Any.Namespace()) when the generic Any node (a payload
        whose type is not in the stanza registry) is non-nil *)
-| POther (k : N).                       (* any other packet but SMAnswer: SMRequest,
+| POther (k : N).                       (* any other packet: SMRequest, SMAnswer (for a Sender that is not a *Client),
                                            StreamFeatures, StreamError, ...; k only
                                            tells the harness which one *)
 
